@@ -52,9 +52,26 @@ pub fn tid() -> u64 {
     TID.with(|t| *t)
 }
 
+thread_local! {
+    /// Direction of the last stream wait entered on this thread: 1 = read side
+    /// (an input), 2 = write side (an output), 0 = none seen since the reset.
+    static WAIT_DIR: std::cell::Cell<u8> = const { std::cell::Cell::new(0) };
+}
+pub fn reset_wait_dir() {
+    WAIT_DIR.with(|c| c.set(0));
+}
+pub fn wait_dir() -> u8 {
+    WAIT_DIR.with(|c| c.get())
+}
+
 fn cb(ev: &Ev) {
     match ev {
-        Ev::Yield { .. } => {
+        Ev::Yield { site, .. } => {
+            match site {
+                rustradio::verif::Site::WaitForRead | rustradio::verif::Site::NcWait => WAIT_DIR.with(|c| c.set(1)),
+                rustradio::verif::Site::WaitForWrite => WAIT_DIR.with(|c| c.set(2)),
+                _ => {}
+            }
             YIELDS.fetch_add(1, Ordering::Relaxed);
             let h = YIELD.read().unwrap().clone();
             if let Some(h) = h {
